@@ -65,6 +65,12 @@ def selector(draw, g):
     if iri_objs and draw(st.booleans()):
         p2 = draw(st.sampled_from(preds))
         pats.append(["?v", p2, draw(st.one_of(st.just("?y"), st.sampled_from(iri_objs)))])
+    lit_objs = sorted({(t[1], t[2][1]) for t in triples if t[2][0] == "lit" and not t[2][3] and t[2][2].endswith("#string")
+                       and t[2][1] and all(ch.isalnum() or ch == " " for ch in t[2][1])})
+    if lit_objs and draw(st.integers(0, 2)) == 0:
+        # a pattern with a string literal (blanks inside it are part of the value: 'a  b' is not 'a b')
+        p3, lex = draw(st.sampled_from(lit_objs))
+        pats.append(["?v", p3, '"%s"' % lex])
     return {"kind": "sparql", "distinct": draw(st.booleans()), "patterns": pats}
 
 
